@@ -208,6 +208,21 @@ fn run_seq<S: Sch>(seq: &[BAct], si: &SchemeInfo) -> SeqOut {
 
 pub fn explore_builder<S: Sch>(tier: Tier, rep: &mut Report) {
     let si = scheme_info::<S>();
+    // Enr::empty(key) is the empty builder built with that key
+    for signer in 0..2usize {
+        let key = S::mk_key(signer);
+        S::arm(&key, -1, 64);
+        let r = real::guard(|| Enr::<S::K>::empty(&key));
+        let p = builder_predict(&BState::default(), signer, 64, &si);
+        let mut v = vec![];
+        let mut c = vec![];
+        judge_build::<S>("Enr::empty", &[], &[signer], &r, &p, &mut v, &mut c);
+        for x in v.iter_mut() {
+            x.sig = x.sig.replace("builder[Enr::empty].build", "Enr::empty");
+        }
+        rep.viols.extend(v);
+        rep.stats.transitions += 1;
+    }
     let small = builder_actions::<S>(false);
     let full = builder_actions::<S>(true);
     let mut seqs: Vec<Vec<BAct>> = vec![vec![]];
